@@ -180,7 +180,8 @@ pub fn derive_plans(rng: &mut Rng, tier: Tier, count: usize) -> Vec<Plan> {
         if force_skew || (enable_skew && rng.chance(1, 2)) {
             plan.skew_heap = (rng.range(1, 4096) as u64) * 16;
             // thread arenas sit at 64 MiB-aligned addresses: displace by whole arenas plus pages
-            plan.skew_mmap = (rng.range(0, 40) as u64) * (64 << 20) + (rng.range(0, 64) as u64) * 4096;
+            // (the page part covers every residue modulo 16 MiB, gram's thread stack size)
+            plan.skew_mmap = (rng.range(0, 40) as u64) * (64 << 20) + (rng.range(0, 4095) as u64) * 4096;
             plan.env_pad = rng.range(1, 4000) as u32;
         }
         let force_identity = plan.kind == "identity_only";
